@@ -21,6 +21,7 @@ from core import Fn, Target, VC
 from nvwp import V, AND, OR, NOT, IMP, lit, Unsupported
 from wplib import IdEnvWP, declare_array, array_name, load, reach_vc
 from cxx2c import unwrap, strip_cv, qual
+import comb
 
 TU_R = 'src/machine/result.cpp'
 HDR_R = os.path.join(astload.REPO, 'include/nano/machine/result.h')
@@ -1177,8 +1178,11 @@ def build(tier):
     v2, f2 = tune_vcs()
     vcs += v2 + lemmas()
     fns += f2
+    v3, f3 = comb.multiply_vcs()
+    vcs += v3 + comb.comb_lemmas()
+    fns += f3
     return {
-        'targets': result_targets() + tuner_targets() + optimize_targets() + local_search_targets() + space_targets() + result_ctor_targets(), 'vcs': vcs, 'functions': fns,
+        'targets': result_targets() + tuner_targets() + optimize_targets() + local_search_targets() + space_targets() + result_ctor_targets() + comb.comb_targets(tier), 'vcs': vcs, 'functions': fns,
         'decided': [
             'evaluate(): for an arbitrary grid point G -- the callback is asked to evaluate G exactly when G is a candidate that is not yet among the steps (never twice, only candidates); '
             'a non-finite value is rejected with an exception, and only then, and is never stored; on return steps = old steps + one step per evaluated point holding the callback value, '
@@ -1196,20 +1200,35 @@ def build(tier):
             'result_t constructor establishes the class invariant (dims (0, folds, 2, 2, 12), empty per-(trial, fold) vectors)',
             'param_space_t::closest_grid_point_from_surrogate returns a valid grid position for every double (surrogate tuner proposes grid points only)',
             'slot lemmas: injective, onto [0, folds * trials), decoding inverts encoding; local_search offsets lemma; budget lemma',
+            'combinatorial_iterator_t<tensor_size_t> on the real header (drivers/inst_comb.cpp; comb.h / comb.py), at arbitrary ghost digits: the constructor establishes the representation invariant '
+            '(D = m_dimensions = both sizes, N = m_combinations = the named product, index 0, m_dimension 0, every digit 0); operator++ from a valid state that is not the last combination produces the digits of the '
+            'mixed-radix SUCCESSOR (digits left of j = new m_dimension unchanged, digit j + 1 < its count, digits right of j were at their maximum and are 0), m_combination + 1, m_dimension in [0, D), invariant re-established; '
+            'operator++ from ANY valid state (also the last combination, where the code wraps around) terminates with m_combination + 1 when some count is >= 2; both loops have decreases clauses, every m_current(d) / m_counts(d) index is in range, no overflow; '
+            'operator bool == (index < size), operator* == m_current, index() / size() == m_combination / m_combinations',
+            'comb_rank lemmas (SMT over Int, one step per digit position, composed by induction over the positions): digits in the box => 0 <= rank < N; successor digits => rank + 1 (so m_combination == rank is preserved: '
+            'lexicographic enumeration, every combination exactly once, size() of them); all digits maximal => rank == N - 1 (the state after the last ++ is invalid); rank injective on the box; prefix products and weights <= N <= 2^62; '
+            'the lambda of product() multiplies without overflow under that bound and product() folds it over the whole range from 1',
+            'local_search() now runs against the RESTATEMENT of the proved iterator contracts at its ghost coefficient (constructor: digits 0; ++: index + 1, digit in [0, count) while valid) and discharges their preconditions (>= 1 dimension, counts >= 1, some count >= 2)',
         ],
         'not_decided': [
             'surrogate tuner numerics (quadratic fit, L-BFGS on the surrogate: opaque); that the surrogate minimiser has one coordinate per parameter space (min_state_opt_x.size() == spaces.size())',
             'thread interleavings of the (trial, fold) tasks (C17); distinct tasks write distinct slots/cells by the slot lemma + C16 index injectivity',
             'the value of the optimum when a mean validation error is +inf and another is exactly DBL_MAX (optimum_trial starts from DBL_MAX: such trials never win)',
-            'combinatorial_iterator_t (assumed contract: each combination once), Eigen coefficient-wise operators and minCoeff, std::sort / remove_if / find_if / erase (assumed contracts)',
+            'Eigen coefficient-wise operators and minCoeff, std::sort / remove_if / find_if / erase (assumed contracts)',
+            'combinatorial_iterator_t: operator++ does NOT terminate when every count is 1 (N == 1, admitted by the constructor asserts): specs/C13/FINDING_comb_all_ones.md; outside the property (the tuners only pass counts of 3, asserted at the call site), so it is the stated precondition "some count >= 2" and not a finding; '
+            'the induction over the digit positions that composes the comb_rank step lemmas, and the step from "proved at an arbitrary ghost digit" to "for every digit", are meta-level (DESIGN 4.3); '
+            'counts with negative entries whose product is positive pass the constructor asserts but are outside the contract (every count >= 1)',
         ],
         'assumptions': [
             'std::remove_if returns the end of the kept elements (those not satisfying the predicate, order preserved) and leaves the tail valid but unspecified; std::find_if returns last iff no element satisfies the predicate; '
             'vector::erase(first, last) removes that range; std::sort sorts a range under a strict weak ordering (no NaN) and permutes it -- each stated for the ghost grid point, with the REAL predicates (extracted lambdas)',
             'operator== on index vectors is equality of contents (grid-point identity)',
             'user tuner callback returns one value per parameter row (values.size() == params.size<0>())',
-            'candidate lists passed to evaluate() are duplicate-free: {avg_igrid}, or local_search output (offsets enumerated once each by combinatorial_iterator_t + offsets lemma, radius >= 1)',
-            'combinatorial_iterator_t{dims} enumerates prod(dims) combinations x with 0 <= x[i] < dims[i]; Eigen array +,-,* act coefficient-wise; minCoeff() <= every coefficient',
+            'candidate lists passed to evaluate() are duplicate-free: {avg_igrid}, or local_search output (offsets enumerated once each: comb_rank injectivity + successor lemmas, + offsets lemma, radius >= 1)',
+            'Eigen array +,-,* act coefficient-wise; minCoeff() <= every coefficient',
+            'combinatorial_iterator_t: tensor copy construction copies length and cells, tensor(size) has `size` cells, zero() zeroes every cell (C16 storage); std::accumulate is the left fold over [begin, end) (STL); '
+            'preconditions of the iterator contracts: 1 <= dimensions <= 10^6, every count >= 1, product of the counts <= 2^62, and for operator++ to terminate at the last combination some count >= 2; '
+            'an index vector is modelled by its length and its cells at the ghost digits (rely / guarantee: cells CBMC does not follow satisfy the box clause that is proved at the arbitrary ghost digit)',
             'local_search contract used by optimize()/do_optimize() at grid-point level is the coefficient-level contract proved for every coefficient (ghost-index lifting)',
             'tuner::max_evals in its registered domain [10, 1000]; grid sizes and 3^d at most 10^6; every parameter space has >= 1 value',
             'ml::result_t class invariant (constructor: target result_ctor; add: preserved) is assumed by the other member contracts: m_values dims (T, F, 2, 2, 12), m_params (T, P), m_extras/m_log_paths hold F*T elements; C16 tensor bound 48*T*F <= 2^62, T <= 2^62',
@@ -1229,6 +1248,15 @@ def replay(rp):
     import replaylib
     out = {'reproduced': False, 'runs': []}
     tgt = rp.get('target', '')
+    if tgt.startswith('comb'):      # the iterator is header-only: exhaustive small boxes on the real header, no library build
+        exe = replaylib.build_header_only('replay/C13_comb_replay.cpp', 'C13_comb_replay')
+        rc, so, se = replaylib.run_driver(exe, [], timeout=120)
+        out['runs'].append({'which': 'comb', 'exit': rc, 'output': so.strip()[-3000:]})
+        out['reproduced'] = rc == 1 or rc < 0
+        return out
+    if os.environ.get('NV_NO_NATIVE_REPLAY'):      # mutation loops: the native replay rebuilds the library from the working tree
+        out['skipped'] = 'NV_NO_NATIVE_REPLAY'
+        return out
     which = 'result' if any(k in tgt for k in ('result', 'tune::', '_trial', 'ml::', 'values')) else 'tuner'
     exe = replaylib.build_with_library('replay/C13_replay.cpp', 'C13_replay')
     rc, so, se = replaylib.run_driver(exe, [which], timeout=600)
